@@ -116,11 +116,11 @@ CHECKS = {
         design="§6 C19"),
     "C05": dict(
         category="model_checking",
-        technique="TLA+ spec Serial (the export grammar at the granularity of transport calls) model-checked by TLC; recorded export/import/re-export round trips of the real library "
+        technique="TLA+ specs Serial (the export grammar at the granularity of transport calls) and Transport (byte-level writer / cut / reader; block-wise writer and EOF-tolerant reader rejected) model-checked by TLC; recorded export/import/re-export round trips of the real library "
                   "validated call by call by TLC (Trace_Serial), functional equivalence of re-imported keys via the Trace_Eval memo",
         text="Serial describes, for each of the 15 exportable object types, the exact sequence of calls the writers make on the transport (text lines in std::map order, 4-byte tags, raw arrays, the variance stored once). "
              "The real API is driven through call-logging sinks (a streambuf for C++ streams, fopencookie for FILE): every type, both transports, parameter values incl. the default sets' 2^-15, 2^-25, 2.44e-5, 7.18e-9 and a sweep 1e-12..0.5, "
-             "extreme coefficient contents, objects alone and 2-3 back to back in one stream. TLC validates that each call is the next call of Serial!Export, that every property line parses back to exactly the object's field (reals by IEEE mantissa/exponent), "
+             "extreme coefficient contents, objects alone and 2-3 back to back in one stream, twin parameter sets and chains of sets that differ from the one imported just before in a single noise level, arrays of exactly 64 KiB, one word more, and 128 KiB. TLC validates that each call is the next call of Serial!Export, that every property line parses back to exactly the object's field (reals by IEEE mantissa/exponent), "
              "that import consumes exactly the object's bytes with a good stream and yields equal fields and contents (key rows with the common maximum variance, also when the maximum sits on a digit-0 row), and that re-export is byte-identical. "
              "A default-parameter secret key set is exported and re-imported (and its cloud part separately) and gates/decryptions under original and re-imported keys must agree bit for bit. Recorded exports are tokenised from their bytes (text sections line by line, each maximal binary stretch as one run with length and leading tag) and compared with Serial!Canon of the segment grammar, so the validation does not depend on how the writer groups its calls.",
         note="Contents are compared through 62-bit hashes. Defect D1 (reals printed with %.8lf) was found by this check and repaired (fix: commit in /repo). Default-size key sets are part of the call-level trace in the thorough tier only.",
